@@ -24,6 +24,8 @@ def leaves(ctx, name, lower=None, unroll=False):
     traversed as the code they are (paths.LOWERABLE) -- used by rules that ask what a function *does*."""
     lower = LOWER_COMBINATORS if lower is None else lower
     key = (id(ctx.facts), name, lower, unroll)
+    if _cache and next(iter(_cache))[0] != id(ctx.facts):
+        _cache.clear()      # another fact base: drop the previous one's paths (they keep it alive)
     if key not in _cache:
         fn = ctx.facts.fn(name)
         _cache[key] = (fn, PathEnum(fn, ctx.facts, lower=lower, unroll=unroll, max_paths=200000 if unroll else 20000).run())
